@@ -113,6 +113,8 @@ type sched struct {
 	preempts   int
 	mapRanges  int
 	clockJumps int
+	foreign    int
+	extClosed  int
 	stuckAtEnd bool
 	pairs      int
 	selects    int
@@ -199,11 +201,28 @@ func (s *sched) lock(a uintptr) *lockSt {
 
 // drain takes every posted message off the queue and records the parks.
 func (s *sched) drain() {
+	var foreign []rt.Msg
 	for {
 		select {
 		case m := <-s.q:
+			if m.Kind != rt.KStart && s.byGoid[m.Goid] == nil {
+				foreign = append(foreign, m) // first hook of a goroutine nobody announced (timer callback)
+				continue
+			}
 			s.handle(m)
 		default:
+			// several such goroutines can start at the same fake instant and reach their first hook
+			// in any order: register them in a canonical order (site, then the first-seen index of
+			// the object they touch) so that their logical ids do not depend on arrival
+			sort.SliceStable(foreign, func(i, j int) bool {
+				if foreign[i].Site != foreign[j].Site {
+					return foreign[i].Site < foreign[j].Site
+				}
+				return s.aidx(foreign[i].Addr) < s.aidx(foreign[j].Addr)
+			})
+			for _, m := range foreign {
+				s.handle(m)
+			}
 			return
 		}
 	}
@@ -226,7 +245,14 @@ func (s *sched) handle(m rt.Msg) {
 	} else {
 		g = s.byGoid[m.Goid]
 		if g == nil {
-			s.internal(fmt.Sprintf("hook %v at site %d from unregistered goroutine %d", m.Kind, m.Site, m.Goid))
+			// a goroutine the library did not start with a go statement (time.AfterFunc callback, ...)
+			g = s.newGor(false)
+			delete(s.byTok, uint64(g.id))
+			g.goid = m.Goid
+			g.site = m.Site
+			g.role = "x" + strconv.Itoa(int(m.Site))
+			s.byGoid[m.Goid] = g
+			s.foreign++
 		}
 	}
 	switch m.Kind {
@@ -347,6 +373,24 @@ func (s *sched) chanOf(addr uintptr, ch any) *chanSt {
 	return c
 }
 
+// probeClosed: a non-blocking receive on an EMPTY channel that no instrumented
+// code sends on. It cannot consume anything: nobody blocks inside a real send in
+// this simulator, and external producers (timers) only deliver while the
+// scheduler sleeps. A closed channel answers at once with ok == false.
+func probeClosed(ch any) bool {
+	v := reflect.ValueOf(ch)
+	if v.Kind() != reflect.Chan || v.IsNil() || v.Type().ChanDir()&reflect.RecvDir == 0 || v.Len() != 0 {
+		return false
+	}
+	_, ok, selected := recvNB(v)
+	return selected && !ok
+}
+
+func recvNB(v reflect.Value) (reflect.Value, bool, bool) {
+	chosen, x, ok := reflect.Select([]reflect.SelectCase{{Dir: reflect.SelectRecv, Chan: v}, {Dir: reflect.SelectDefault}})
+	return x, ok, chosen == 0
+}
+
 func chanLenCap(ch any) (int, int) {
 	v := reflect.ValueOf(ch)
 	if v.Kind() != reflect.Chan || v.IsNil() {
@@ -413,6 +457,11 @@ func (s *sched) recvReady(addr uintptr, ch any, g *gor) (ready, partner bool) {
 	n, cp := chanLenCap(ch)
 	if n > 0 {
 		return true, false
+	}
+	if !c.closed && !c.internal && probeClosed(ch) {
+		// closed from outside the model (context cancellation, stdlib)
+		c.closed = true
+		s.extClosed++
 	}
 	if c.closed {
 		return true, false
@@ -878,10 +927,27 @@ func (s *sched) loop(cond func() bool) stopReason {
 func (s *sched) fallback() bool {
 	for _, g := range s.gors[1:] {
 		m := g.msg
-		if m == nil || m.Addr == 0 {
+		if m == nil {
 			continue
 		}
-		if m.Kind != rt.KRecvPre && m.Kind != rt.KSendPre {
+		if m.Kind == rt.KSelectPre {
+			// a select with a receive clause on a channel fed from outside the model (time.After,
+			// ctx.Done()): run it as written; it blocks durably until the outside world delivers
+			ext := false
+			for i := 0; i < m.NCases; i++ {
+				c := &m.Cases[i]
+				if !c.Send && c.Addr != 0 && !s.chanOf(c.Addr, c.Ch).internal {
+					ext = true
+				}
+			}
+			if ext {
+				s.fallbacks++
+				s.releasePaired(g, ^uint64(1)) // -2: nothing is disabled
+				return true
+			}
+			continue
+		}
+		if (m.Kind != rt.KRecvPre && m.Kind != rt.KSendPre) || m.Addr == 0 {
 			continue
 		}
 		if s.chanOf(m.Addr, m.Ch).internal {
